@@ -2,7 +2,7 @@
    Model: Model/Replace.v (replace_from).  The list of selected matches is a parameter: the theorems hold for ANY selection the search
    and random.sample hand over. *)
 From Coq Require Import List Arith Bool ZArith.
-From Mofun Require Import Lib.NP Model.Atoms Model.Geom Model.Replace Proofs.DelProofs Proofs.ExtProofs Proofs.ReplaceProofs.
+From Mofun Require Import Lib.NP Model.Atoms Model.Geom Model.Replace Proofs.DelProofs Proofs.ExtProofs Proofs.ReplaceProofs Proofs.ReplTypeProofs Proofs.ReplCountProofs.
 Import ListNotations.
 
 (* a successful replacement with a non-empty replacement pattern: the reported count is the number of selected matches; the deleted set is
@@ -19,6 +19,16 @@ Theorem C04_atoms : forall S search repl ra ig sel S' k, natoms repl <> 0 ->
   t_el S' = t_el S ++ t_el repl /\ t_mass S' = t_mass S ++ t_mass repl /\ t_lab S' = t_lab S ++ t_lab repl /\ a_cell S' = a_cell S.
 Proof. exact replace_ok_atoms. Qed.
 Print Assumptions C04_atoms.
+
+(* counting: with M selected matches that share no atom, the atom count changes by exactly M * (atoms of the replacement pattern -
+   atoms of the search pattern), whatever the two patterns have in common (stated without subtraction).  match_ok: a match names
+   existing atoms, one per search atom, and carries one placed coordinate per replacement atom. *)
+Theorem C04_count : forall S search repl ra ig sel S' k, natoms repl <> 0 -> pattern_distinct repl ->
+  Forall (match_ok S search repl) sel -> disjoint_matches sel ->
+  replace_from S search repl ra ig sel = Ok S' k ->
+  k = length sel /\ natoms S' + length sel * natoms search = natoms S + length sel * natoms repl.
+Proof. exact replace_count. Qed.
+Print Assumptions C04_count.
 
 (* empty replacement pattern: every matched atom is deleted, each once; nothing else happens *)
 Theorem C04_empty_replacement : forall S search repl ra ig sel, natoms repl = 0 ->
